@@ -497,6 +497,7 @@ func runHistory(p *prefix, t *tmpl, events []int, states map[string]bool, mu *sy
 		}
 	}()
 	failedReorg := false // a reorganisation has failed earlier in this history
+	reopened := false    // the chain was closed and reopened earlier in this history
 	var orphans []int
 	okHashes := map[[32]byte]bool{p.tip: true}
 	delivered := map[int]bool{}
@@ -548,7 +549,8 @@ func runHistory(p *prefix, t *tmpl, events []int, states map[string]bool, mu *sy
 				// The listed finding is exactly this: the fallback takes the heaviest leaf with ties broken by
 				// the order in which the competing children ARRIVED at their fork point. A tied tip that this
 				// rule does not produce is something else and is reported under its own key.
-				if pick := arrivalOrderPick(m, m.Nodes[p.tip]); pick != nil && pick.Hash != tip {
+				// (after a restart the children of a node are in map order, any tied leaf may come out)
+				if pick := arrivalOrderPick(m, m.Nodes[p.tip]); !reopened && pick != nil && pick.Hash != tip {
 					return fail("tip-tie-after-failed-reorg-not-by-arrival-order", fmt.Sprintf("after %s: tip is %s; first seen is %s, the arrival-order fallback of the listed finding would give %s", evname, name(tip), name(best[0].Hash), name(pick.Hash)))
 				}
 				return &outcome{key: "tip-tie-not-first-seen-after-failed-reorg", global: true, trace: trace,
@@ -635,6 +637,7 @@ func runHistory(p *prefix, t *tmpl, events []int, states map[string]bool, mu *sy
 		case evn == -2:
 			e.Close()
 			e = minichain.Open(dir+"/d", &minichain.Opts{Params: params})
+			reopened = true
 			atomic.AddInt64(trans, 1)
 			trace = append(trace, step{Ev: "close+reopen"})
 			// After a restart the first-seen order among equal-work leaves is not
